@@ -188,6 +188,21 @@ def run(chk, ctx) -> None:
         chk.ob('C11.table', f'{name}:forced_bets', ok, loc, 'forced bets', got=f'bring_in={bi!r}, blinds={bl!r}', want=want)
     chk.floor('C11.table', 12 * 5)
     chk.floor('C11.name', 12)
+    # ---- what the declared structure and cap mean while playing (clauses shared with C03)
+    from .c03 import _max_amount, _raise_effects, _refusals
+    from .c19 import _Rename
+
+    class _To11(_Rename):
+        def ob(self, rule, *a, **k):
+            return self.chk.ob('C11.semantics', *a, **k)
+
+        def floor(self, rule, n):
+            return None
+    r = _To11(chk)
+    _max_amount(r, ctx)      # fixed-limit: exactly the fixed size; pot-limit: up to the pot; no-limit: up to the stack
+    _refusals(r, ctx)        # a bet/raise is refused once the per-street cap is reached
+    _raise_effects(r, ctx)   # every bet/raise counts towards the cap
+    chk.floor('C11.semantics', 4)
     _create_state(chk, ctx, variants)
     _game_call(chk, ctx)
     _codes(chk, ctx, sev)
